@@ -191,7 +191,6 @@ func netBudget() time.Duration {
 	return 25 * time.Second
 }
 
-
 // stallWindow is the zero-progress window of the stall oracle: that many
 // seconds (>= 15 periods of parallelSync's 1 s ticker) without any node's tip
 // or any node's count of distinct blocks handed to its manager changing, while
